@@ -3,8 +3,10 @@ package checks
 import (
 	"context"
 	"fmt"
+	"github.com/prometheus/alertmanager/config"
 	"os"
 	"sort"
+	"strconv"
 	"testing"
 	"testing/synctest"
 	"time"
@@ -35,6 +37,7 @@ type c03Rule struct {
 	Source []ref.Matcher `json:"source"`
 	Target []ref.Matcher `json:"target"`
 	Equal  []string      `json:"equal"`
+	Legacy bool          `json:"legacy,omitempty"` // written as source_match / source_match_re / target_match / target_match_re when expressible
 }
 
 type c03Op struct {
@@ -112,6 +115,8 @@ func genC03(t *rapid.T) c03Scenario {
 		if rapid.IntRange(0, 7).Draw(t, "eqmissing") == 0 {
 			r.Equal = append(r.Equal, "d") // label missing on both sides: counts as empty
 		}
+		// one rule in four is written in the deprecated source_match(_re) / target_match(_re) spelling when it can be
+		r.Legacy = rapid.IntRange(0, 3).Draw(t, "legacy") == 0
 		sc.Rules = append(sc.Rules, r)
 	}
 	sc.GCSec = rapid.SampledFrom([]int{60, 300, 1800}).Draw(t, "gc")
@@ -170,9 +175,66 @@ func c03Inhibited(rules []c03Rule, firing []map[string]string, firingFP []model.
 	return len(witnesses) > 0, witnesses
 }
 
+// c03LegacyRule renders a rule in the deprecated source_match / source_match_re / target_match / target_match_re
+// spelling and loads it the way a configuration file is loaded; ok=false when the rule cannot be written that way
+// (a negative matcher, or two matchers on one label of a side).
+func c03LegacyRule(r c03Rule) (amcommoncfg.InhibitRule, bool) {
+	side := func(prefix string, ms []ref.Matcher) (string, bool) {
+		eq, re := "", ""
+		seen := map[string]bool{}
+		for _, m := range ms {
+			if seen[m.Name] {
+				return "", false
+			}
+			seen[m.Name] = true
+			switch m.Op {
+			case "=":
+				eq += fmt.Sprintf("    %s: %s\n", m.Name, strconv.Quote(m.Value))
+			case "=~":
+				re += fmt.Sprintf("    %s: %s\n", m.Name, strconv.Quote(m.Pattern()))
+			default:
+				return "", false
+			}
+		}
+		out := ""
+		if eq != "" {
+			out += "  " + prefix + "_match:\n" + eq
+		}
+		if re != "" {
+			out += "  " + prefix + "_match_re:\n" + re
+		}
+		return out, true
+	}
+	src, ok1 := side("source", r.Source)
+	tgt, ok2 := side("target", r.Target)
+	if !ok1 || !ok2 || src == "" || tgt == "" {
+		return amcommoncfg.InhibitRule{}, false
+	}
+	y := "route:\n  receiver: r\nreceivers:\n- name: r\ninhibit_rules:\n- equal: ["
+	for i, e := range r.Equal {
+		if i > 0 {
+			y += ", "
+		}
+		y += strconv.Quote(e)
+	}
+	y += "]\n" + src + tgt
+	cfg, err := config.Load(y)
+	if err != nil || len(cfg.InhibitRules) != 1 {
+		return amcommoncfg.InhibitRule{}, false
+	}
+	return cfg.InhibitRules[0], true
+}
+
 func execC03(sc c03Scenario) (res pbt.Result) {
 	var rules []amcommoncfg.InhibitRule
 	for _, r := range sc.Rules {
+		if r.Legacy {
+			if lr, ok := c03LegacyRule(r); ok {
+				rules = append(rules, lr)
+				res.Class("legacy-rule-spelling")
+				continue
+			}
+		}
 		src, err1 := toLabelsMatchers(r.Source)
 		tgt, err2 := toLabelsMatchers(r.Target)
 		if err1 != nil || err2 != nil {
